@@ -35,7 +35,10 @@ Statements that had to follow the code rather than the English of the property:
   with the edge's target too.  Before the repair "strict_types checks every producer of a value against its
   consumer" the annotation of a second (mutually exclusive) producer was never compared and acceptance
   depended on the order of the node list (`strict_second_producer_witness`: the pre-repair check
-  `chkTypesFirstProducer` against the repaired model; `flaw_type_mismatch_any_producer`);
+  `chkTypesFirstProducer` against the repaired model; `flaw_type_mismatch_any_producer`).  "Other" means
+  other than the edge's SOURCE: since repair `07d3d31` the edge's target is not exempt, a node that reads
+  and writes one name is typed against itself (`self_feed_checked`; before: `chkTypesSkipSelf`,
+  `self_feed_rejected_witness` / `flaw_self_feed_unchecked_witness`);
 * the NAME of a graph node is exempt from the identifier rule (it follows the graph-name rule); its
   OUTPUT names are not — before the repair "output names of a nested graph are validated" they were
   skipped together with the name (`graph_node_output_name_witness`, `graph_node_output_names_unchecked`:
@@ -70,12 +73,13 @@ theorem typed_data_edges (b : BuildInput) (h : buildGraph b = .ok ()) (hs : b.st
   (sound b h).typed hs e he (by rw [hk]; decide) v hv
 
 /-- … and so is every other node `p` that produces the value as data: any of the (exclusive or ordered)
-producers of a name can deliver it to the consumer, the built graph only links the first-listed one -/
+producers of a name can deliver it to the consumer, the built graph only links the first-listed one.  `p`
+may be the consumer itself (repair `07d3d31`: a node that reads and writes the name). -/
 theorem typed_other_producers (b : BuildInput) (h : buildGraph b = .ok ()) (hs : b.strict = true) (e : Edge)
     (he : e ∈ graphEdges b) (hk : e.kind = .data) (v : Name) (hv : v ∈ e.values) (p : NodeD) (hp : p ∈ b.nodes)
-    (hpv : v ∈ p.dataOuts) (h1 : p.name ≠ e.src) (h2 : p.name ≠ e.dst) :
+    (hpv : v ∈ p.dataOuts) (h1 : p.name ≠ e.src) :
     ∃ to ti, outType b p.name v = some to ∧ inType b e.dst v = some ti ∧ compat to ti = true :=
-  (sound b h).typedAllProducers hs e he (by rw [hk]; decide) v hv p hp hpv h1 h2
+  (sound b h).typedAllProducers hs e he (by rw [hk]; decide) v hv p hp hpv h1
 
 /-- the fuel-bounded reachability used for `Mutex` / `Ordered` is the reflexive-transitive closure -/
 theorem reaches_iff_reach (V : List Name) (adj : Name → Name → Bool) (a c : Name) :
@@ -287,34 +291,34 @@ theorem flaw_missing_annotation_consumer (b : BuildInput) (hs : b.strict = true)
   exact flaw_missing_annotation b hs e he (by rw [hk]; decide) p h3 (h1 ▸ h2 ▸ hmiss)
 
 /-- strict mode, ANY non-ordering edge, ANY value on it, ANY OTHER node `p` producing that value as data
-(not the edge's source — that is `flaw_type_mismatch` / `flaw_missing_annotation` — nor its target): `p`
-not annotated compatibly with the target's parameter (a missing annotation on either side, or an
-incompatible pair) -/
+(not the edge's source — that is `flaw_type_mismatch` / `flaw_missing_annotation`; since repair `07d3d31`
+it MAY be the edge's target): `p` not annotated compatibly with the target's parameter (a missing
+annotation on either side, or an incompatible pair) -/
 theorem flaw_type_mismatch_any_producer (b : BuildInput) (hs : b.strict = true) (e : Edge)
     (he : e ∈ graphEdges b) (hk : e.kind ≠ .ordering) (v : Name) (hv : v ∈ e.values) (p : NodeD)
-    (hp : p ∈ b.nodes) (hpv : v ∈ p.dataOuts) (h1 : p.name ≠ e.src) (h2 : p.name ≠ e.dst)
+    (hp : p ∈ b.nodes) (hpv : v ∈ p.dataOuts) (h1 : p.name ≠ e.src)
     (hbad : ¬ TypedTriple b p.name e.dst v) : buildGraph b ≠ .ok () :=
-  fun h => hbad ((sound b h).typedAllProducers hs e he hk v hv p hp hpv h1 h2)
+  fun h => hbad ((sound b h).typedAllProducers hs e he hk v hv p hp hpv h1)
 
 /-- … with the incompatible annotations named -/
 theorem flaw_type_mismatch_other_producer (b : BuildInput) (hs : b.strict = true) (e : Edge)
     (he : e ∈ graphEdges b) (hk : e.kind ≠ .ordering) (v : Name) (hv : v ∈ e.values) (p : NodeD)
-    (hp : p ∈ b.nodes) (hpv : v ∈ p.dataOuts) (h1 : p.name ≠ e.src) (h2 : p.name ≠ e.dst) (to ti : Ty)
+    (hp : p ∈ b.nodes) (hpv : v ∈ p.dataOuts) (h1 : p.name ≠ e.src) (to ti : Ty)
     (ho : outType b p.name v = some to) (hi : inType b e.dst v = some ti) (hc : compat to ti = false) :
     buildGraph b ≠ .ok () :=
-  flaw_type_mismatch_any_producer b hs e he hk v hv p hp hpv h1 h2 (by
+  flaw_type_mismatch_any_producer b hs e he hk v hv p hp hpv h1 (by
     rintro ⟨to', ti', ho', hi', hc'⟩
     rw [ho] at ho'; rw [hi] at hi'
     cases ho'; cases hi'
     rw [hc] at hc'; cases hc')
 
 /-- the same in the vocabulary of nodes (auto-inference mode), WHEREVER the producer is listed: ANY
-consumer `nd` of a parameter `q` and ANY other node `s` producing `q` as data, not annotated compatibly
-with it.  (The first-listed producer is the source of the data edge, every other one falls under
-`typedAllProducers`: acceptance does not depend on which of them comes first.) -/
+consumer `nd` of a parameter `q` and ANY node `s` producing `q` as data — `nd` itself included, repair
+`07d3d31` — not annotated compatibly with it.  (The first-listed producer is the source of the data edge,
+every other one falls under `typedAllProducers`: acceptance does not depend on which of them comes first.) -/
 theorem flaw_type_mismatch_any_producer_consumer (b : BuildInput) (hs : b.strict = true)
     (hx : b.explicitEdges = none) (nd : NodeD) (hnd : nd ∈ b.nodes) (q : Name) (hq : q ∈ nd.inputs)
-    (s : NodeD) (hsn : s ∈ b.nodes) (hsq : q ∈ s.dataOuts) (hne : s.name ≠ nd.name)
+    (s : NodeD) (hsn : s ∈ b.nodes) (hsq : q ∈ s.dataOuts)
     (hbad : ¬ TypedTriple b s.name nd.name q) : buildGraph b ≠ .ok () := by
   intro h
   have hmem : s.name ∈ sourcesOf b.nodes q :=
@@ -329,7 +333,7 @@ theorem flaw_type_mismatch_any_producer_consumer (b : BuildInput) (hs : b.strict
   by_cases hsf : s.name = e.src
   · have := (sound b h).typed hs e he hk' q h3
     exact hbad (by rw [hsf, ← h2]; exact this)
-  · have := (sound b h).typedAllProducers hs e he hk' q h3 s hsn hsq hsf (by rw [h2]; exact hne)
+  · have := (sound b h).typedAllProducers hs e he hk' q h3 s hsn hsq hsf
     exact hbad (by rw [← h2]; exact this)
 
 /-! ## 4. the repaired graph is accepted -/
@@ -544,12 +548,149 @@ theorem strict_second_producer_flaw : buildGraph exSecondStr ≠ .ok () :=
            ⟨"decide", "left", .control, []⟩, ⟨"decide", "right", .control, []⟩,
            ⟨"left", "sink", .data, ["r"]⟩] := rfl
       rw [hE]; simp)) (by decide)
-    "r" (by decide) exRight (by simp [exSecondStr, exGood]) (by decide) (by decide) (by decide)
+    "r" (by decide) exRight (by simp [exSecondStr, exGood]) (by decide) (by decide)
     (.cls "str") (.cls "int") rfl rfl compat_str_int
 
 /-- the repair never accepts a graph the pre-repair constructor rejected -/
 theorem accepted_was_accepted_firstProducer (b : BuildInput) (h : buildGraph b = .ok ()) :
     buildGraphFirstProducer b = .ok () := buildGraphFirstProducer_ok_of h
+
+/-! ### self-feeding producer (repair `07d3d31`)
+
+`_validate_types` collected, for a value `v` on an edge `source → target`, the other producers of `v` with
+`other not in (source_name, target_name)`: the TARGET itself was skipped.  A node that reads and writes the
+same name (an accumulator: parameter `messages`, data output `messages`) and is listed after the first
+producer of that name gets its data edge from the first producer only, so its own output annotation was
+never compared with its own parameter annotation — although on the next round the node is fed what it
+wrote.  The repair compares `other != source_name` only. -/
+
+/-- `init() -> messages : str`, `add(messages : str) -> messages : int`, listed `[init, add]`, strict: the
+built graph has the single data edge `init → add` carrying `messages` -/
+def exSelfFeed : BuildInput :=
+  { nodes := [mkNode "init" .fn [] ["messages"], mkNode "add" .fn ["messages"] ["messages"]], strict := true,
+    inTypes := [("add", [("messages", .cls "str")])],
+    outTypes := [("init", [("messages", .cls "str")]), ("add", [("messages", .cls "int")])] }
+
+/-- the same with the edge `init → add` declared (`edges=[("init", "add")]`): the two producers of
+`messages` are then ordered by a declared edge and every check before `_validate_types` passes -/
+def exSelfFeedDeclared : BuildInput := { exSelfFeed with explicitEdges := some [("init", "add", none)] }
+
+/-- the repaired type check rejects the self-feeding node: `add` writes an `int` into the name it reads as
+a `str`.  The triple `(init, add, messages)` — the edge's own — is fine (`str` into `str`); the triple
+`(add, add, messages)`, present since repair `07d3d31`, is the mismatch.  With the edge declared the
+constructor reaches `_validate_types` and reports exactly that error.  (In auto-inference mode the
+constructor stops earlier, at the output-conflict check: a data edge carrying the contested name does not
+order its producers; stated as the last conjunct so that nothing is claimed about `buildGraph exSelfFeed`
+beyond what the model says.) -/
+theorem self_feed_rejected_witness :
+    graphEdges exSelfFeed = [⟨"init", "add", .data, ["messages"]⟩] ∧
+      chkTypes exSelfFeed = some (.typeMismatch "add" "add" "messages") ∧
+      graphEdges exSelfFeedDeclared = [⟨"init", "add", .data, ["messages"]⟩] ∧
+      chkTypes exSelfFeedDeclared = some (.typeMismatch "add" "add" "messages") ∧
+      buildGraph exSelfFeedDeclared = .error (.typeMismatch "add" "add" "messages") ∧
+      classify exSelfFeedDeclared = "type_mismatch" ∧
+      buildGraph exSelfFeed = .error (.outputConflict "messages" "init" "add") := by
+  have hM : dataSourcesOf exSelfFeed.nodes "messages" = ["init", "add"] := by decide
+  have hM' : dataSourcesOf exSelfFeedDeclared.nodes "messages" = ["init", "add"] := by decide
+  have hE : nxOrder exSelfFeed.nodes (graphEdges exSelfFeed) = [⟨"init", "add", .data, ["messages"]⟩] := rfl
+  have hE' : nxOrder exSelfFeedDeclared.nodes (graphEdges exSelfFeedDeclared) =
+      [⟨"init", "add", .data, ["messages"]⟩] := rfl
+  have h1 : chkTypes exSelfFeed = some (.typeMismatch "add" "add" "messages") := by
+    unfold chkTypes
+    rw [hE]
+    simp only [List.findSome?_cons, List.findSome?_nil, chkTypesEdgeProducers, typeSourcesFor, hM]
+    simp [chkTypesTriple, exSelfFeed, outType, inType, AL.get?,
+      compat_of_clsEq (t := .cls "str") (u := .cls "str") rfl, compat_int_str]
+  have h2 : chkTypes exSelfFeedDeclared = some (.typeMismatch "add" "add" "messages") := by
+    unfold chkTypes
+    rw [hE']
+    simp only [List.findSome?_cons, List.findSome?_nil, chkTypesEdgeProducers, typeSourcesFor, hM']
+    simp [chkTypesTriple, exSelfFeedDeclared, exSelfFeed, outType, inType, AL.get?,
+      compat_of_clsEq (t := .cls "str") (u := .cls "str") rfl, compat_int_str]
+  have h3 : buildGraph exSelfFeedDeclared = .error (.typeMismatch "add" "add" "messages") := by
+    rw [buildGraph_of_untyped (by decide), h2]
+  refine ⟨rfl, h1, rfl, h2, h3, ?_, by decide⟩
+  unfold classify; rw [h3]; rfl
+
+/-- known as the defect repaired by `07d3d31`: the type check as it was before the repair (`chkTypesSkipSelf`:
+the consumer skipped among the other producers) finds nothing wrong with the very same graphs, and with the
+edge declared every other check passes too, so the pre-repair constructor — the checks before
+`_validate_types` followed by `chkTypesSkipSelf` — accepted a graph whose node `add` is fed its own `int`
+where it declares a `str`. -/
+theorem flaw_self_feed_unchecked_witness :
+    chkTypesSkipSelf exSelfFeed = none ∧ chkTypesSkipSelf exSelfFeedDeclared = none ∧
+      runChecks (checksUntyped ++ [chkTypesSkipSelf]) exSelfFeedDeclared = .ok () := by
+  have hM : dataSourcesOf exSelfFeed.nodes "messages" = ["init", "add"] := by decide
+  have hM' : dataSourcesOf exSelfFeedDeclared.nodes "messages" = ["init", "add"] := by decide
+  have hE : nxOrder exSelfFeed.nodes (graphEdges exSelfFeed) = [⟨"init", "add", .data, ["messages"]⟩] := rfl
+  have hE' : nxOrder exSelfFeedDeclared.nodes (graphEdges exSelfFeedDeclared) =
+      [⟨"init", "add", .data, ["messages"]⟩] := rfl
+  have h1 : chkTypesSkipSelf exSelfFeed = none := by
+    unfold chkTypesSkipSelf
+    rw [hE]
+    simp only [List.findSome?_cons, List.findSome?_nil, chkTypesEdgeProducersSkipSelf, typeSourcesForSkipSelf, hM]
+    simp [chkTypesTriple, exSelfFeed, outType, inType, AL.get?,
+      compat_of_clsEq (t := .cls "str") (u := .cls "str") rfl]
+  have h2 : chkTypesSkipSelf exSelfFeedDeclared = none := by
+    unfold chkTypesSkipSelf
+    rw [hE']
+    simp only [List.findSome?_cons, List.findSome?_nil, chkTypesEdgeProducersSkipSelf, typeSourcesForSkipSelf, hM']
+    simp [chkTypesTriple, exSelfFeedDeclared, exSelfFeed, outType, inType, AL.get?,
+      compat_of_clsEq (t := .cls "str") (u := .cls "str") rfl]
+  refine ⟨h1, h2, runChecks_ok.mpr fun c hc => ?_⟩
+  rcases List.mem_append.mp hc with hc | hc
+  · exact runChecks_ok.mp (show runChecks checksUntyped exSelfFeedDeclared = .ok () by decide) c hc
+  · rw [List.mem_singleton.mp hc]; exact h2
+
+/-- the general statement: in an accepted strict description, on ANY non-ordering edge and for ANY value `v`
+on it, a target that also produces `v` as data (the node named `e.dst` lists `v` among its `dataOuts`) is
+typed against ITSELF: its output annotation for `v` and its parameter annotation for `v` are both present
+and compatible.  (Whether or not the edge is a self-loop: if `e.dst = e.src` this is the edge's own triple.) -/
+theorem self_feed_checked (b : BuildInput) (h : chkTypes b = none) (hs : b.strict = true) (e : Edge)
+    (he : e ∈ graphEdges b) (hk : e.kind ≠ .ordering) (v : Name) (hv : v ∈ e.values) (n : NodeD)
+    (hn : n ∈ b.nodes) (hname : n.name = e.dst) (hnv : v ∈ n.dataOuts) :
+    TypedOK b { e with src := e.dst } v := by
+  have h' := chkTypes_none.mp h hs e he hk v hv
+  by_cases hne : e.dst = e.src
+  · have h0 : TypedTriple b e.src e.dst v := h'.1
+    show TypedTriple b e.dst e.dst v
+    rw [hne]; rw [hne] at h0; exact h0
+  · have h2 := h'.2 n hn hnv (by rw [hname]; exact hne)
+    rw [hname] at h2
+    exact h2
+
+/-- … of a graph the constructor accepted, annotations spelled out -/
+theorem self_feed_checked_built (b : BuildInput) (h : buildGraph b = .ok ()) (hs : b.strict = true) (e : Edge)
+    (he : e ∈ graphEdges b) (hk : e.kind ≠ .ordering) (v : Name) (hv : v ∈ e.values) (n : NodeD)
+    (hn : n ∈ b.nodes) (hname : n.name = e.dst) (hnv : v ∈ n.dataOuts) :
+    ∃ to ti, outType b e.dst v = some to ∧ inType b e.dst v = some ti ∧ compat to ti = true :=
+  self_feed_checked b (chkTypes_none_split.mpr ⟨(sound b h).typed, (sound b h).typedAllProducers⟩)
+    hs e he hk v hv n hn hname hnv
+
+/-- the flaw form: a consumer that also produces the value and is not annotated compatibly with itself is
+rejected, wherever it is listed -/
+theorem flaw_self_feed_mismatch (b : BuildInput) (hs : b.strict = true) (e : Edge)
+    (he : e ∈ graphEdges b) (hk : e.kind ≠ .ordering) (v : Name) (hv : v ∈ e.values) (n : NodeD)
+    (hn : n ∈ b.nodes) (hname : n.name = e.dst) (hnv : v ∈ n.dataOuts)
+    (hbad : ¬ TypedTriple b e.dst e.dst v) : buildGraph b ≠ .ok () :=
+  fun h => hbad (self_feed_checked_built b h hs e he hk v hv n hn hname hnv)
+
+/-- the flaw theorem applies to the witness (hypotheses satisfiable) -/
+example : buildGraph exSelfFeedDeclared ≠ .ok () :=
+  flaw_self_feed_mismatch exSelfFeedDeclared rfl ⟨"init", "add", .data, ["messages"]⟩
+    (by rw [self_feed_rejected_witness.2.2.1]; simp) (by decide) "messages" (by decide)
+    (mkNode "add" .fn ["messages"] ["messages"]) (by simp [exSelfFeedDeclared, exSelfFeed]) rfl (by decide)
+    (by
+      rintro ⟨to, ti, ho, hi, hc⟩
+      have ho' : outType exSelfFeedDeclared "add" "messages" = some (.cls "int") := rfl
+      have hi' : inType exSelfFeedDeclared "add" "messages" = some (.cls "str") := rfl
+      rw [ho'] at ho; rw [hi'] at hi
+      cases ho; cases hi
+      rw [compat_int_str] at hc; cases hc)
+
+/-- repair `07d3d31` only ever accepts less: what the present type check passes, the pre-repair one passed -/
+theorem chkTypes_accepted_was_accepted_skipSelf (b : BuildInput) (h : chkTypes b = none) :
+    chkTypesSkipSelf b = none := chkTypesSkipSelf_of_chkTypes h
 
 /-- BEFORE the repair "output names of a nested graph are validated" the identifier rule skipped graph
 nodes together with their outputs (`chkIdentifiersSkipGraph`, constructor `buildGraphSkipGraph`); the repaired rule still exempts the NAME
